@@ -1,8 +1,563 @@
 package sym
 
-type j2State struct{}
+import (
+	"bytes"
+	"encoding/json"
+	"sort"
+	"strconv"
+)
+
+// J2: abstract JSON documents. A []byte (or string) value may be backed by a JSON *value tree* instead of bytes.
+// Documents with duplicate member names are outside the model.
+
+type JKind uint8
+
+const (
+	JNull JKind = iota
+	JBool
+	JNum
+	JStr
+	JArr
+	JObj
+)
+
+// JNode is an immutable JSON value.
+type JNode struct {
+	Kind  JKind
+	B     *Term   // JBool
+	I     *Term   // JNum: 64-bit integer value (nil if Lit is used)
+	Lit   *StrV   // JNum: literal token for non-integer numbers
+	Str   *StrV   // JStr: decoded string
+	Elems []*JNode
+	Keys  []*StrV
+	Vals  []*JNode
+}
+
+// JDocV is the heap payload of a byte array that holds a J2 document.
+type JDocV struct {
+	Root *JNode
+	Len  *Term // opaque length of the serialisation
+}
+
+type j2State struct {
+	n int
+}
 
 func newJ2State() *j2State { return &j2State{} }
 
+func (e *Engine) jStr(s string) *JNode { return &JNode{Kind: JStr, Str: e.StrConst(s)} }
+
+// newDoc allocates a document object and returns a []byte slice value for it.
+func (e *Engine) newDoc(st *State, root *JNode) *SliceV {
+	e.j2.n++
+	ln := e.tb.Fresh("j2len"+strconv.Itoa(e.j2.n), 64)
+	m := st.model
+	st.assume(e.tb.Cmp(OpULe, e.tb.Int64(2), ln))
+	st.assume(e.tb.Cmp(OpULe, ln, e.tb.Int64(1<<30)))
+	if m != nil {
+		nm := make(map[string]uint64, len(m)+1)
+		for k, v := range m {
+			nm[k] = v
+		}
+		nm[ln.Name] = 2
+		st.model = nm
+	}
+	id := e.alloc(st, &JDocV{Root: root, Len: ln})
+	return &SliceV{Obj: id, N: ln, Cap: 1 << 30}
+}
+
+// docOf returns the document behind a byte slice, parsing plain bytes with concrete structure if necessary.
+func (e *Engine) docOf(st *State, s *SliceV) (*JNode, bool) {
+	if s.IsNil() {
+		return nil, false
+	}
+	switch v := e.get(st, s.Obj).(type) {
+	case *JDocV:
+		return v.Root, true
+	case *ArrayV:
+		_ = v
+		str := e.sliceToStr(st, s)
+		return e.parseJSONStr(st, str)
+	}
+	return nil, false
+}
+
+// docOfStr: a string may carry a document too.
+func (e *Engine) docOfStr(st *State, s *StrV) (*JNode, bool) {
+	if s.Doc != nil {
+		return s.Doc.Root, true
+	}
+	return e.parseJSONStr(st, s)
+}
+
+// parseJSONStr parses a string whose JSON structure is concrete. Symbolic bytes may occur only inside string
+// literals and are then assumed to be plain ASCII (0x20..0x7E except '"' and '\\'): stated bound of the J2 model.
+func (e *Engine) parseJSONStr(st *State, s *StrV) (*JNode, bool) {
+	n, ok := s.ConcreteLen()
+	if !ok {
+		return nil, false
+	}
+	if c, ok := s.Concrete(); ok {
+		return e.parseConcreteJSON([]byte(c))
+	}
+	p := &symParser{e: e, st: st, b: s.B[:n]}
+	p.ws()
+	node, ok := p.value()
+	if !ok {
+		return nil, false
+	}
+	p.ws()
+	if p.i != len(p.b) {
+		return nil, false
+	}
+	return node, true
+}
+
+func (e *Engine) parseConcreteJSON(b []byte) (*JNode, bool) {
+	dec := json.NewDecoder(bytes.NewReader(b))
+	dec.UseNumber()
+	node, ok := e.decodeTokens(dec)
+	if !ok {
+		return nil, false
+	}
+	if _, err := dec.Token(); err == nil {
+		return nil, false
+	}
+	if dec.More() {
+		return nil, false
+	}
+	return node, true
+}
+
+func (e *Engine) decodeTokens(dec *json.Decoder) (*JNode, bool) {
+	tok, err := dec.Token()
+	if err != nil {
+		return nil, false
+	}
+	switch t := tok.(type) {
+	case json.Delim:
+		switch t {
+		case '{':
+			n := &JNode{Kind: JObj}
+			for dec.More() {
+				kt, err := dec.Token()
+				if err != nil {
+					return nil, false
+				}
+				ks, ok := kt.(string)
+				if !ok {
+					return nil, false
+				}
+				v, ok := e.decodeTokens(dec)
+				if !ok {
+					return nil, false
+				}
+				// duplicate keys: last wins (encoding/json); documents with duplicates are outside the model anyway
+				dup := false
+				for i, k := range n.Keys {
+					if c, _ := k.Concrete(); c == ks {
+						n.Vals[i] = v
+						dup = true
+					}
+				}
+				if !dup {
+					n.Keys = append(n.Keys, e.StrConst(ks))
+					n.Vals = append(n.Vals, v)
+				}
+			}
+			if _, err := dec.Token(); err != nil {
+				return nil, false
+			}
+			return n, true
+		case '[':
+			n := &JNode{Kind: JArr}
+			for dec.More() {
+				v, ok := e.decodeTokens(dec)
+				if !ok {
+					return nil, false
+				}
+				n.Elems = append(n.Elems, v)
+			}
+			if _, err := dec.Token(); err != nil {
+				return nil, false
+			}
+			return n, true
+		}
+		return nil, false
+	case string:
+		return e.jStr(t), true
+	case json.Number:
+		return e.numNode(string(t)), true
+	case bool:
+		return &JNode{Kind: JBool, B: e.tb.Bool(t)}, true
+	case nil:
+		return &JNode{Kind: JNull}, true
+	}
+	return nil, false
+}
+
+func (e *Engine) numNode(lit string) *JNode {
+	if i, err := strconv.ParseInt(lit, 10, 64); err == nil && (lit == "0" || (lit[0] != '0' && !(lit[0] == '-' && len(lit) > 1 && lit[1] == '0'))) {
+		return &JNode{Kind: JNum, I: e.tb.Int64(i)}
+	}
+	return &JNode{Kind: JNum, Lit: e.StrConst(lit)}
+}
+
+type symParser struct {
+	e  *Engine
+	st *State
+	b  []*Term
+	i  int
+}
+
+func (p *symParser) peek() (byte, bool) {
+	if p.i >= len(p.b) || !p.b[p.i].IsConst() {
+		return 0, false
+	}
+	return byte(p.b[p.i].Val), true
+}
+
+func (p *symParser) ws() {
+	for {
+		c, ok := p.peek()
+		if !ok || !(c == ' ' || c == '\t' || c == '\n' || c == '\r') {
+			return
+		}
+		p.i++
+	}
+}
+
+func (p *symParser) lit(s string) bool {
+	for j := 0; j < len(s); j++ {
+		c, ok := p.peek()
+		if !ok || c != s[j] {
+			return false
+		}
+		p.i++
+	}
+	return true
+}
+
+func (p *symParser) str() (*StrV, bool) {
+	c, ok := p.peek()
+	if !ok || c != '"' {
+		return nil, false
+	}
+	p.i++
+	var out []*Term
+	t := p.e.tb
+	for p.i < len(p.b) {
+		bt := p.b[p.i]
+		if bt.IsConst() {
+			c := byte(bt.Val)
+			if c == '"' {
+				p.i++
+				return &StrV{N: t.Int64(int64(len(out))), B: out}, true
+			}
+			if c == '\\' {
+				// concrete escapes only
+				if p.i+1 >= len(p.b) || !p.b[p.i+1].IsConst() {
+					return nil, false
+				}
+				switch byte(p.b[p.i+1].Val) {
+				case '"', '\\', '/':
+					out = append(out, p.b[p.i+1])
+				case 'n':
+					out = append(out, t.Const(8, '\n'))
+				case 't':
+					out = append(out, t.Const(8, '\t'))
+				case 'r':
+					out = append(out, t.Const(8, '\r'))
+				case 'b':
+					out = append(out, t.Const(8, '\b'))
+				case 'f':
+					out = append(out, t.Const(8, '\f'))
+				default:
+					return nil, false // \u escapes: not modelled here
+				}
+				p.i += 2
+				continue
+			}
+			if c < 0x20 {
+				return nil, false
+			}
+			out = append(out, bt)
+			p.i++
+			continue
+		}
+		// symbolic content byte: assumed plain ASCII
+		p.st.assume(t.Cmp(OpULe, t.Const(8, 0x20), bt))
+		p.st.assume(t.Cmp(OpULe, bt, t.Const(8, 0x7E)))
+		p.st.assume(t.Ne(bt, t.Const(8, '"')))
+		p.st.assume(t.Ne(bt, t.Const(8, '\\')))
+		p.e.rep.J2PlainAssumed++
+		out = append(out, bt)
+		p.i++
+	}
+	return nil, false
+}
+
+func (p *symParser) value() (*JNode, bool) {
+	c, ok := p.peek()
+	if !ok {
+		return nil, false
+	}
+	e := p.e
+	switch {
+	case c == '{':
+		p.i++
+		n := &JNode{Kind: JObj}
+		p.ws()
+		if c, ok := p.peek(); ok && c == '}' {
+			p.i++
+			return n, true
+		}
+		for {
+			p.ws()
+			k, ok := p.str()
+			if !ok {
+				return nil, false
+			}
+			p.ws()
+			if !p.lit(":") {
+				return nil, false
+			}
+			p.ws()
+			v, ok := p.value()
+			if !ok {
+				return nil, false
+			}
+			n.Keys = append(n.Keys, k)
+			n.Vals = append(n.Vals, v)
+			p.ws()
+			c, ok := p.peek()
+			if !ok {
+				return nil, false
+			}
+			p.i++
+			if c == '}' {
+				return n, true
+			}
+			if c != ',' {
+				return nil, false
+			}
+		}
+	case c == '[':
+		p.i++
+		n := &JNode{Kind: JArr}
+		p.ws()
+		if c, ok := p.peek(); ok && c == ']' {
+			p.i++
+			return n, true
+		}
+		for {
+			p.ws()
+			v, ok := p.value()
+			if !ok {
+				return nil, false
+			}
+			n.Elems = append(n.Elems, v)
+			p.ws()
+			c, ok := p.peek()
+			if !ok {
+				return nil, false
+			}
+			p.i++
+			if c == ']' {
+				return n, true
+			}
+			if c != ',' {
+				return nil, false
+			}
+		}
+	case c == '"':
+		s, ok := p.str()
+		if !ok {
+			return nil, false
+		}
+		return &JNode{Kind: JStr, Str: s}, true
+	case c == 't':
+		if p.lit("true") {
+			return &JNode{Kind: JBool, B: e.tb.True}, true
+		}
+	case c == 'f':
+		if p.lit("false") {
+			return &JNode{Kind: JBool, B: e.tb.False}, true
+		}
+	case c == 'n':
+		if p.lit("null") {
+			return &JNode{Kind: JNull}, true
+		}
+	case c == '-' || (c >= '0' && c <= '9'):
+		start := p.i
+		for {
+			c, ok := p.peek()
+			if !ok || !(c == '-' || c == '+' || c == '.' || c == 'e' || c == 'E' || (c >= '0' && c <= '9')) {
+				break
+			}
+			p.i++
+		}
+		buf := make([]byte, p.i-start)
+		for j := range buf {
+			buf[j] = byte(p.b[start+j].Val)
+		}
+		if !json.Valid(buf) {
+			return nil, false
+		}
+		return e.numNode(string(buf)), true
+	}
+	return nil, false
+}
+
+// ---------------------------------------------------------------------------
+// structural equality and ordering helpers
+
+func concKeys(n *JNode) ([]string, bool) {
+	ks := make([]string, len(n.Keys))
+	for i, k := range n.Keys {
+		c, ok := k.Concrete()
+		if !ok {
+			return nil, false
+		}
+		ks[i] = c
+	}
+	return ks, true
+}
+
+// nodeEq builds a Bool term: the two values are equal as JSON values.
+func (e *Engine) nodeEq(a, b *JNode) *Term {
+	t := e.tb
+	if a == b {
+		return t.True
+	}
+	if a.Kind != b.Kind {
+		return t.False
+	}
+	switch a.Kind {
+	case JNull:
+		return t.True
+	case JBool:
+		return t.Eq(a.B, b.B)
+	case JNum:
+		if a.I != nil && b.I != nil {
+			return t.Eq(a.I, b.I)
+		}
+		if a.Lit != nil && b.Lit != nil {
+			return e.strEq(a.Lit, b.Lit)
+		}
+		return t.False
+	case JStr:
+		return e.strEq(a.Str, b.Str)
+	case JArr:
+		if len(a.Elems) != len(b.Elems) {
+			return t.False
+		}
+		r := t.True
+		for i := range a.Elems {
+			r = t.And(r, e.nodeEq(a.Elems[i], b.Elems[i]))
+		}
+		return r
+	case JObj:
+		if len(a.Keys) != len(b.Keys) {
+			return t.False
+		}
+		ia, ib := identityPerm(len(a.Keys)), identityPerm(len(b.Keys))
+		if ka, ok := concKeys(a); ok {
+			if kb, ok := concKeys(b); ok {
+				sort.Slice(ia, func(x, y int) bool { return ka[ia[x]] < ka[ia[y]] })
+				sort.Slice(ib, func(x, y int) bool { return kb[ib[x]] < kb[ib[y]] })
+			}
+		}
+		r := t.True
+		for i := range ia {
+			r = t.And(r, e.strEq(a.Keys[ia[i]], b.Keys[ib[i]]))
+			r = t.And(r, e.nodeEq(a.Vals[ia[i]], b.Vals[ib[i]]))
+			if r.IsFalse() {
+				return r
+			}
+		}
+		return r
+	}
+	return t.False
+}
+
+func identityPerm(n int) []int {
+	p := make([]int, n)
+	for i := range p {
+		p[i] = i
+	}
+	return p
+}
+
 // j2BytesEqual: structural equality if both slices are J2 documents.
-func (e *Engine) j2BytesEqual(st *State, a, b *SliceV) (*Term, bool) { return nil, false }
+func (e *Engine) j2BytesEqual(st *State, a, b *SliceV) (*Term, bool) {
+	if a.IsNil() || b.IsNil() {
+		return nil, false
+	}
+	_, da := e.get(st, a.Obj).(*JDocV)
+	_, db := e.get(st, b.Obj).(*JDocV)
+	if !da && !db {
+		return nil, false
+	}
+	na, ok1 := e.docOf(st, a)
+	nb, ok2 := e.docOf(st, b)
+	if !ok1 || !ok2 {
+		return e.tb.False, true
+	}
+	return e.nodeEq(na, nb), true
+}
+
+// docStr makes a string value that carries a document (for Raw fields, string(json) conversions).
+func (e *Engine) docStr(st *State, root *JNode) *StrV {
+	sl := e.newDoc(st, root)
+	d := e.get(st, sl.Obj).(*JDocV)
+	return &StrV{N: d.Len, B: nil, Doc: d}
+}
+
+// objGet finds a member by concrete key; forks are avoided by requiring concrete keys on both sides when possible.
+// Returns (node, found-term). With symbolic keys the result is an ite over members; only scalars merge, so symbolic
+// keys fall back to forking in the caller.
+func objIndexConcrete(n *JNode, key string) (int, bool, bool) {
+	allConc := true
+	for i, k := range n.Keys {
+		c, ok := k.Concrete()
+		if !ok {
+			allConc = false
+			continue
+		}
+		if c == key {
+			return i, true, true
+		}
+	}
+	return -1, false, allConc
+}
+
+// objLookup resolves key in object n, forking on symbolic member names.
+type objHit struct {
+	st  *State
+	idx int // -1: absent
+}
+
+func (e *Engine) objLookup(st *State, n *JNode, key string) []objHit {
+	if i, found, allConc := objIndexConcrete(n, key); found || allConc {
+		if !found {
+			i = -1
+		}
+		return []objHit{{st, i}}
+	}
+	var res []objHit
+	cur := st
+	kk := e.StrConst(key)
+	for i, k := range n.Keys {
+		c := e.strEq(k, kk)
+		t, f := e.branch(cur, c)
+		if t != nil {
+			res = append(res, objHit{t, i})
+		}
+		if f == nil {
+			return res
+		}
+		cur = f
+	}
+	return append(res, objHit{cur, -1})
+}
